@@ -12,7 +12,8 @@ From DD Require Import CopyFnOk.
 Local Open Scope string_scope.
 
 (** ** 1. Success.  ANY consistent target [b] with dynamic reordering
-    disabled and exact counts in which the variables of the source are
+    disabled, no bound on the number of nodes ([max_nodes = None], the
+    default) and exact counts in which the variables of the source are
     declared, whatever the two orders and whatever the target already holds.
 
     The call does not fail and returns one handle per root.  [us] lists the
@@ -26,7 +27,7 @@ Local Open Scope string_scope.
     of the memo and of the locals has been released. *)
 Theorem C11_copy_bdds_from_correct src roots b L :
   Inv src → Forall (valid src) roots →
-  Inv (mgr b) → last_len (mgr b) = None → Counts (mgr b) L →
+  Inv (mgr b) → last_len (mgr b) = None → max_nodes (mgr b) = None → Counts (mgr b) L →
   (∀ v, is_Some (vars src !! v) → is_Some (vars (mgr b) !! v)) →
   ∃ hs us b',
     copy_bdds_from src roots b = (Ok hs, b') ∧ length hs = length roots ∧
@@ -49,7 +50,8 @@ Print Assumptions C11_copy_bdds_from_correct.
 
 (** ** 2. Failure (a root that is not a reference of the source, a variable
     of the source that the target does not declare: [var] raises
-    [ValueError]): no handle is created, nothing is leaked (the objects built
+    [ValueError]; a target with a bound [max_nodes] whose table is full: [var]
+    or [ite] raises [RuntimeError]): no handle is created, nothing is leaked (the objects built
     so far and the memo are released), the target only grows and every old
     reference keeps its meaning.  No hypothesis on the roots. *)
 Theorem C11_copy_bdds_from_failure src roots b L e b' :
@@ -79,7 +81,7 @@ Theorem C11_copy_bdds_from_any src roots r0 H n L :
              hs !! i = hs !! j) ∧
           (∀ j, j < length us → n + j ∈ hs)
     end ∧
-    (decl src r0 → Forall (valid src) roots → ∃ hs, res = Ok hs).
+    (decl src r0 → max_nodes r0 = None → Forall (valid src) roots → ∃ hs, res = Ok hs).
 Proof. exact (copy_bdds_from_spec src roots r0 H n L). Qed.
 Print Assumptions C11_copy_bdds_from_any.
 
@@ -142,4 +144,17 @@ Example C11_fn_nonvacuous :
    map_to_list (refc (mgr b')) = map_to_list (refc (mgr b)) ∧
    map_to_list (refc (mgr b))
      = [(1%positive, 6); (2%positive, 1); (4%positive, 1); (3%positive, 2)]).
+Proof. by vm_compute. Qed.
+
+(** A bounded target.  Target 1 holds 4 nodes (next free id 5); with the bound
+    [max_nodes = 5] the first new node is refused: [RuntimeError], counts and
+    handles unchanged (the failure theorem makes no assumption on
+    [max_nodes]; the success theorem needs [max_nodes = None]). *)
+Example C11_fn_max_nodes :
+  let b := aworld_get cw1 1 in
+  let w := <[1 := b <| mgr := mgr b <| max_nodes := Some 5%positive |> |>]> cw1 in
+  let b' := aworld_get (fst (astep_copy_fn w 1 0 [4; 5; 3; 4; 6])) 1 in
+  snd (astep_copy_fn w 1 0 [4; 5; 3; 4; 6]) = Err ERuntime ∧
+  map_to_list (handles b') = map_to_list (handles b) ∧ next_hid b' = next_hid b ∧
+  map_to_list (refc (mgr b')) = map_to_list (refc (mgr b)).
 Proof. by vm_compute. Qed.
